@@ -1,9 +1,244 @@
-import Fpdec.Lemmas.Dom
+import Fpdec.Lemmas.Rounding
+import Fpdec.Lemmas.IntTy
 import Fpdec.Props.C05_Sites
 
-/-! # C05 — property theorems (under construction: see DESIGN.md section 6) -/
+/-!
+# C05 — round / checked_round implement all eight rounding modes exactly
+
+* `kernel_spec`: the integer rounding kernel `i128_div_rounded(n, d, mode)` is `Spec.specRoundQ` for every
+  mode, every in-range `n`, every non-zero in-range `d`, every build profile (re-export of
+  `i128DivRounded_spec`; the core is `roundQuot_spec`).
+* `spec_table`: `Spec.specRound` itself agrees with the documented behaviour of Python's `decimal` module on
+  the complete class grid (sign × last digit 0–9 × remainder below/at/above half/zero × 8 modes).
+* `round_spec`, `checked_round_spec`: `d.round(n)` / `d.checked_round(n)` for every `d` in the domain and every
+  `n : i8` return `d` unchanged for `n ≥ p`, else the multiple of `10^-n` selected by the mode, panic / `None`
+  exactly when that value does not fit; `checked_round` never panics.
+-/
 
 namespace Fpdec.Props.C05
 open Fpdec Fpdec.Model
+
+/-- the integer rounding kernel, all modes / operands / profiles -/
+theorem kernel_spec (prof : Profile) (tm : Mode) (mode : Option Mode) (n d : Int)
+    (hn : I128_MIN < n ∧ n ≤ I128_MAX) (hd : I128_MIN < d ∧ d ≤ I128_MAX) (hd0 : d ≠ 0) :
+    i128DivRounded prof tm n d mode = .ok (Spec.specRoundQ (mode.getD tm) n d) :=
+  i128DivRounded_spec prof tm mode n d hn hd hd0
+
+/-- Python `decimal` reference outcomes for `(30+digit)·d + rem` over `d`, per mode: the increment (0/1)
+    applied to the floor quotient; classes: rem = 0, below half, half, above half -/
+def pyIncrement (m : Mode) (neg : Bool) (q : Int) (cls : Nat) : Int :=
+  -- q is the floor quotient; for negative values "towards zero" is q+1
+  if cls = 0 then 0 else
+  match m with
+  | .ceil => 1
+  | .floor => 0
+  | .down => if neg then 1 else 0
+  | .up => if neg then 0 else 1
+  | .r05up => let tz := if neg then q + 1 else q
+              if tz % 5 = 0 then (if neg then 0 else 1) else (if neg then 1 else 0)
+  | .hup => if cls = 3 then 1 else if cls = 1 then 0 else (if neg then 0 else 1)
+  | .hdown => if cls = 3 then 1 else if cls = 1 then 0 else (if neg then 1 else 0)
+  | .heven => if cls = 3 then 1 else if cls = 1 then 0 else (if q % 2 = 0 then 0 else 1)
+
+/-- the class grid: divisor 10, remainders 0 / 3 / 5 / 7, every last digit, both signs, all modes -/
+theorem spec_table :
+    (Mode.all.all fun m => (List.range 20).all fun dg => [0, 3, 5, 7].all fun (r : Nat) =>
+      let q : Int := (dg : Int) - 10          -- floor quotients -10 … 9: every last digit, both signs
+      let n : Int := q * 10 + r
+      let cls := if r = 0 then 0 else if r = 3 then 1 else if r = 5 then 2 else 3
+      Spec.specRound m n 10 == q + pyIncrement m (decide (n < 0)) q cls) = true := by
+  decide
+
+private theorem ediv_small_pos {n d : Int} (h0 : 0 ≤ n) (h1 : n < d) : n / d = 0 ∧ n % d = n :=
+  ⟨Int.ediv_eq_zero_of_lt h0 h1, Int.emod_eq_of_lt h0 h1⟩
+
+private theorem ediv_small_neg {n d : Int} (h0 : n < 0) (h1 : -d < n) : n / d = -1 ∧ n % d = n + d := by
+  have hd : 0 < d := by omega
+  have h := Int.ediv_emod_unique (a := n) (b := d) (r := n + d) (q := -1) hd
+  have := h.mpr ⟨by omega, by omega, by omega⟩
+  exact this
+
+/-- a value of magnitude below one half rounds to -1, 0 or 1 depending on sign and mode only -/
+theorem specRound_small (m : Mode) (n d : Int) (hd : 0 < d) (h : 2 * n.natAbs < d) :
+    Spec.specRound m n d = Spec.specRound m (Int.sign n) 3 := by
+  rcases Int.lt_trichotomy n 0 with hn | hn | hn
+  · have hs : Int.sign n = -1 := Int.sign_eq_neg_one_of_neg hn
+    obtain ⟨e1, e2⟩ := ediv_small_neg (n := n) (d := d) hn (by omega)
+    have e3 : (-1 : Int) / 3 = -1 := by decide
+    have e4 : (-1 : Int) % 3 = 2 := by decide
+    rw [hs]
+    unfold Spec.specRound
+    simp only [e1, e2, e3, e4]
+    cases m <;> simp <;> omega
+  · subst hn
+    unfold Spec.specRound; simp
+  · have hs : Int.sign n = 1 := Int.sign_eq_one_of_pos hn
+    obtain ⟨e1, e2⟩ := ediv_small_pos (n := n) (d := d) (by omega) (by omega)
+    have e3 : (1 : Int) / 3 = 0 := by decide
+    have e4 : (1 : Int) % 3 = 1 := by decide
+    rw [hs]
+    unfold Spec.specRound
+    simp only [e1, e2, e3, e4]
+    cases m <;> simp <;> omega
+
+theorem round_shift_const : Gen.ROUND_MAX_SHIFT = 38 ∧ Gen.ROUND_SIGNUM_DIVISOR = 3 := by decide
+
+theorem pow10_gt_max {k : Nat} (h : 39 ≤ k) : 2 * I128_MAX < (10 : Int) ^ k := by
+  have h39 : 2 * I128_MAX < (10 : Int) ^ 39 := by decide
+  have : (10 : Int) ^ 39 ≤ (10 : Int) ^ k := pow10_mono h
+  omega
+
+theorem pow10_le_max {k : Nat} (h : k ≤ 38) : (10 : Int) ^ k ≤ I128_MAX := by
+  have h38 : (10 : Int) ^ 38 ≤ I128_MAX := by decide
+  have : (10 : Int) ^ k ≤ (10 : Int) ^ 38 := pow10_mono h
+  omega
+
+/-- `round` and `checked_round` share `roundCore`; its result is the spec's -/
+theorem round_core_spec (prof : Profile) (tm : Mode) (d : Dec) (n : Int) (hd : Dom d)
+    (hn : -128 ≤ n ∧ n ≤ 127) :
+    Spec.allowedChecked (Spec.round tm d.coeff d.nfrac n) (outOptPair (roundCore prof tm d n)) = true := by
+  obtain ⟨a, p⟩ := d
+  obtain ⟨ha0, ha1, hp⟩ := hd
+  simp only at ha0 ha1 hp
+  obtain ⟨c38, c3⟩ := round_shift_const
+  unfold roundCore Spec.round
+  simp only [c38, c3]
+  rw [i8_cast_id (x := (p : Int)) (by omega) (by omega)]
+  by_cases h1 : n ≥ (p : Int)
+  · simp [h1, Spec.allowedChecked]
+  · simp only [h1, if_false]
+    rw [i8_plain_ok prof (x := (p : Int) - (38 : Nat)) (by omega) (by omega)]
+    simp only [Outcome.bind_ok]
+    by_cases h2 : n < (p : Int) - (38 : Nat)
+    · -- far shift: the value is below one half in magnitude
+      simp only [h2, if_true]
+      have hsg : I128_MIN < Int.sign a ∧ Int.sign a ≤ I128_MAX := by
+        unfold I128_MIN I128_MAX
+        rcases Int.lt_trichotomy a 0 with h | h | h
+        · rw [Int.sign_eq_neg_one_of_neg h]; omega
+        · subst h; simp
+        · rw [Int.sign_eq_one_of_pos h]; omega
+      rw [i128DivRounded_spec prof tm none (Int.sign a) ((3 : Nat) : Int) hsg (by unfold I128_MIN I128_MAX; omega) (by omega)]
+      simp only [Outcome.bind_ok, Option.getD_none]
+      have hsh : 39 ≤ ((p : Int) - n).toNat := by omega
+      have hbig : 2 * a.natAbs < (10 : Int) ^ ((p : Int) - n).toNat := by
+        have := pow10_gt_max hsh
+        unfold I128_MIN I128_MAX at *
+        omega
+      have h3 : ¬ ((3 : Nat) : Int) < 0 := by omega
+      have hq : Spec.specRoundQ tm a.sign ((3 : Nat) : Int) = Spec.specRound tm a ((10 : Int) ^ ((p : Int) - n).toNat) := by
+        unfold Spec.specRoundQ
+        simp only [h3, if_false]
+        exact (specRound_small tm a _ (pow10_pos _) hbig).symm
+      have hkr : Spec.specRoundQ tm a.sign ((3 : Nat) : Int) = -1 ∨ Spec.specRoundQ tm a.sign ((3 : Nat) : Int) = 0 ∨
+          Spec.specRoundQ tm a.sign ((3 : Nat) : Int) = 1 := by
+        unfold Spec.specRoundQ
+        simp only [h3, if_false]
+        rcases Int.lt_trichotomy a 0 with h | h | h
+        · rw [Int.sign_eq_neg_one_of_neg h]; cases tm <;> decide
+        · subst h; cases tm <;> decide
+        · rw [Int.sign_eq_one_of_pos h]; cases tm <;> decide
+      rw [← hq]
+      generalize Spec.specRoundQ tm a.sign ((3 : Nat) : Int) = k at hkr
+      have hn0 : ¬ n ≥ 0 := by omega
+      simp only [hn0, if_false]
+      by_cases hk0 : k = 0
+      · simp [hk0, Spec.allowedChecked, Dec.ZERO]
+      · simp only [hk0, if_false]
+        have hnn : (-n).toNat = n.natAbs := by omega
+        rw [hnn]
+        by_cases hbig2 : n.natAbs ≤ 38
+        · rw [checkedMulPowTen_eq k n.natAbs hbig2]
+          have hle := pow10_le_max hbig2
+          have hpos := pow10_pos n.natAbs
+          have hf : fitsI128 (k * (10 : Int) ^ n.natAbs) = true := by
+            rw [fitsI128_iff]; unfold I128_MIN I128_MAX at *
+            rcases hkr with h | h | h <;> subst h <;> omega
+          rw [checkedI128_some hf]
+          exact valFit_some _ _ hf
+        · have hgt := pow10_gt_max (k := n.natAbs) (by omega)
+          unfold checkedMulPowTen
+          rw [checkedTenPow_none n.natAbs (by omega)]
+          have hnf : fitsI128 (k * (10 : Int) ^ n.natAbs) = false := by
+            cases hh : fitsI128 (k * (10 : Int) ^ n.natAbs)
+            · rfl
+            · rw [fitsI128_iff] at hh; unfold I128_MIN I128_MAX at *
+              rcases hkr with h | h | h <;> subst h <;> omega
+          exact valFit_none _ _ hnf
+    · -- regular shift 1 ..= 38
+      simp only [h2, if_false]
+      rw [i8_plain_ok prof (x := (p : Int) - n) (by omega) (by omega)]
+      simp only [Outcome.bind_ok]
+      rw [u8_cast_id (x := (p : Int) - n) (by omega) (by omega)]
+      have hsh : ((p : Int) - n).toNat ≤ 38 := by omega
+      rw [tenPow_ok _ hsh]
+      simp only [Outcome.bind_ok]
+      have hpw := pow10_pos ((p : Int) - n).toNat
+      have hpl := pow10_le_max hsh
+      rw [i128DivRounded_spec prof tm none a ((10 : Int) ^ ((p : Int) - n).toNat) ⟨ha0, ha1⟩
+        ⟨by unfold I128_MIN; omega, hpl⟩ (by omega)]
+      simp only [Outcome.bind_ok, Option.getD_none]
+      have hq : Spec.specRoundQ tm a ((10 : Int) ^ ((p : Int) - n).toNat) =
+          Spec.specRound tm a ((10 : Int) ^ ((p : Int) - n).toNat) := by
+        unfold Spec.specRoundQ
+        have : ¬ (10 : Int) ^ ((p : Int) - n).toNat < 0 := by omega
+        simp only [this, if_false]
+      rw [hq]
+      have hkf := specRound_fits tm a ((10 : Int) ^ ((p : Int) - n).toNat) ⟨ha0, ha1⟩ hpw
+      generalize Spec.specRound tm a ((10 : Int) ^ ((p : Int) - n).toNat) = k at hkf
+      by_cases hn0 : n ≥ 0
+      · simp only [hn0, if_true]
+        rw [u8_cast_id (x := n) (by omega) (by omega)]
+        exact valFit_some _ _ hkf
+      · simp only [hn0, if_false]
+        rw [i8_plain_ok prof (x := -n) (by omega) (by omega)]
+        simp only [Outcome.bind_ok]
+        rw [u8_cast_id (x := -n) (by omega) (by omega)]
+        rw [tenPow_ok _ (by omega)]
+        simp only [Outcome.bind_ok]
+        by_cases hk0 : k = 0
+        · subst hk0
+          simp [checkedI128_some hkf, Spec.allowedChecked]
+        · simp only [hk0, if_false]
+          cases hh : fitsI128 (k * (10 : Int) ^ (-n).toNat)
+          · rw [checkedI128_none hh]; exact valFit_none _ _ hh
+          · rw [checkedI128_some hh]; exact valFit_some _ _ hh
+
+/-- `d.checked_round(n)` never panics and returns the spec's value or `None` -/
+theorem checked_round_spec (prof : Profile) (tm : Mode) (d : Dec) (n : Int) (hd : Dom d) (hn : -128 ≤ n ∧ n ≤ 127) :
+    Spec.allowedChecked (Spec.round tm d.coeff d.nfrac n) (outOptPair (checkedRound prof tm d n)) = true :=
+  round_core_spec prof tm d n hd hn
+
+theorem round_exp_shape (tm : Mode) (a : Int) (p : Nat) (n : Int) :
+    Spec.round tm a p n ≠ .divzero ∧ Spec.round tm a p n ≠ .none ∧ Spec.round tm a p n ≠ .nfrac := by
+  unfold Spec.round
+  split
+  · simp
+  · simp only []
+    split
+    · exact valFit_shape _ _
+    · split
+      · simp
+      · exact valFit_shape _ _
+
+/-- `d.round(n)`: the same value, a panic with the overflow message instead of `None` -/
+theorem round_spec (prof : Profile) (tm : Mode) (d : Dec) (n : Int) (hd : Dom d) (hn : -128 ≤ n ∧ n ≤ 127) :
+    Spec.allowedOp (Spec.round tm d.coeff d.nfrac n) (outPair (round prof tm d n)) = true := by
+  have h := round_core_spec prof tm d n hd hn
+  obtain ⟨s1, s2, s3⟩ := round_exp_shape tm d.coeff d.nfrac n
+  have := allowedOp_of_checked _ _ h s1 s2 s3
+  have e : round prof tm d n = panicOnNone (roundCore prof tm d n) := by
+    unfold round
+    cases roundCore prof tm d n with
+    | panic k => rfl
+    | ok o => cases o <;> rfl
+  rw [e]
+  exact this
+
+/-! ### non-vacuity -/
+example : round Profile.dev .heven ⟨25, 1⟩ 0 = .ok ⟨2, 0⟩ ∧ round Profile.dev .hup ⟨25, 1⟩ 0 = .ok ⟨3, 0⟩ := by decide
+example : round Profile.release .up ⟨1, 0⟩ (-39) = .panic .overflow ∧ checkedRound Profile.dev .up ⟨1, 0⟩ (-39) = .ok none := by
+  decide
+example : round Profile.dev .floor ⟨-29999, 3⟩ (-37) = .ok ⟨-(10 : Int) ^ 37, 0⟩ := by decide
 
 end Fpdec.Props.C05
